@@ -302,6 +302,63 @@ class HostCase:
                   self.history[-1][2]), {'class': cls,
                                          'message': repr(raw)[:200]})
 
+    def step_raising_callback(self):
+        """A valid callback message for this host whose *application
+        callback* raises (an Exception; on asyncio also the CancelledError of
+        a coroutine callback that awaited a cancelled task): the listener
+        must survive and process what follows."""
+        rng, r, ctx = self.rng, self.r, self.ctx
+        live = [(k, lst[-1]) for k, lst in sorted(r.issued.items())
+                if r.sio.manager.is_connected(lst[-1], k[1])]
+        if not live:
+            return
+        (T, ns), sid = rng.choice(live)
+        kinds = ['exception']
+        if r.d.is_async:
+            kinds += ['cancelled', 'cancelled']
+        how = rng.choice(kinds)
+        fired = []
+        if r.d.is_async:
+            async def cb(*a):
+                fired.append(a)
+                if how == 'cancelled':
+                    fut = asyncio.get_event_loop().create_future()
+                    fut.cancel()
+                    await fut
+                raise RuntimeError('application callback failed')
+        else:
+            def cb(*a):
+                fired.append(a)
+                raise RuntimeError('application callback failed')
+        for t in r.T.values():
+            t.drain()
+        self.history.append(['raising_callback', how])
+        try:
+            r.d.api('emit', 'needs_ack', {'x': 1}, to=sid, namespace=ns,
+                    callback=cb)
+        except Exception as e:
+            return self.fail('emit with callback raised %r' % e)
+        pk = [p for p in r.T[T].drain()
+              if p['type'] in (R.EVENT, R.BINARY_EVENT)]
+        if len(pk) != 1 or pk[0]['id'] is None:
+            return self.fail('emit with callback sent %r' % pk)
+        msg = {'method': 'callback', 'host_id': self.mgr.host_id,
+               'sid': sid, 'namespace': ns, 'id': pk[0]['id'],
+               'args': ['x']}
+        self.push(pickle.dumps(msg))
+        ctx.count('raising_callbacks_' + how)
+        if len(fired) != 1:
+            return self.fail('callback message for this host invoked the '
+                             'callback %d times' % len(fired))
+        if self.listener_dead:
+            return self.fail('the listener stopped after an application '
+                             'callback raised (%s)' % how)
+        r.d.clear_errors()
+        if not self.sentinel('after an application callback raised (%s)'
+                             % how):
+            return
+        ctx.case((self.kind, 'raising_callback', how), {'how': how})
+
     def final(self):
         r, ctx = self.r, self.ctx
         # the outstanding local callback completes through a callback message
@@ -325,6 +382,11 @@ class HostCase:
         self.setup()
         n = self.rng.choice([10, 25, 50])
         for _ in range(n):
+            if self.rng.random() < 0.06:
+                self.step_raising_callback()
+                if self.failed:
+                    return
+                continue
             st = self.step_bad()
             if self.failed or st == 'empty':
                 return
@@ -605,6 +667,8 @@ def run(ctx):
     ctx.require('faults_injected', 50)
     ctx.require('echoes_checked', 10)
     ctx.require('own_callback_completions', 5)
+    ctx.require('raising_callbacks_exception', 5)
+    ctx.require('raising_callbacks_cancelled', 5)
     ctx.require('listen_restarts', 5)
     ctx.require('redis_cases', 20)
     k = 0
